@@ -295,14 +295,18 @@ def gen_case(rng, prop='C13'):
     absent = [k for k in keyspace if k not in present]
     kinds = ['set-new', 'set-over', 'update', 'del', 'pop', 'clear', 'dump', 'open', 'open-cached', 'setdefault',
              'popitem', 'popkeys']
+    if b['kind'] == 'dir':
+        kinds += ['set-over', 'update', 'dump', 'del']       # the multi-step protocols: replace / remove an entry
+    special = [k for k in present if not isinstance(k, str) or '-' in k]     # entries with a stored input file
+    pick = lambda: (rng.choice(special) if special and rng.random() < 0.6 else rng.choice(present))
     while True:
         kd = rng.choice(kinds)
         if kd == 'set-new' and absent:
             op = ['set', absent[0], newv()]
         elif kd == 'set-over' and present:
-            op = ['set', rng.choice(present), newv()]
+            op = ['set', pick(), newv()]
         elif kd == 'update' and (present or absent):
-            ks = (present[:1] + absent[:2]) if rng.random() < 0.7 else absent[:2]
+            ks = ([pick()] + absent[:2]) if (present and rng.random() < 0.7) else absent[:2]
             op = ['update', [[k, newv()] for k in ks]]
         elif kd == 'del' and present:
             op = ['del', rng.choice(present)]
@@ -311,7 +315,7 @@ def gen_case(rng, prop='C13'):
         elif kd == 'clear' and present:
             op = ['clear']
         elif kd == 'dump':
-            ks = (present[:1] + absent[:1]) if present else absent[:2]
+            ks = ([pick()] + absent[:1]) if present else absent[:2]
             op = ['dump', [[k, newv()] for k in ks]]
         elif kd == 'open':
             op = ['open', 0]
